@@ -797,7 +797,7 @@ impl FrameSet {
         self.get_keys().into_iter().cloned().collect()
     }
 
-    fn get_all_frames(&self) -> HashMap<FrameIdentifier, FrameAttributes> {
+    fn get_all_frames(&self) -> IndexMap<FrameIdentifier, FrameAttributes> {
         self.frames.clone()
     }
 
